@@ -198,11 +198,15 @@ func (vc *VC) Query(o *Obligation, axioms *AxiomSet) string {
 			decls = append(decls, e.Text)
 		case evDef, evAssume:
 			if i < o.idx {
-				body = append(body, "(assert "+e.Text+")")
+				t, d := skolemizeHyp(e.Text)
+				decls = append(decls, d...)
+				body = append(body, "(assert "+t+")")
 			}
 		case evObl:
 			if i < o.idx && !e.Obl.Cover && !e.Obl.Canary && !o.Cover {
-				body = append(body, "(assert "+sImp(e.Obl.Guard, e.Obl.Cond)+")")
+				t, d := skolemizeHyp(sImp(e.Obl.Guard, e.Obl.Cond))
+				decls = append(decls, d...)
+				body = append(body, "(assert "+t+")")
 			}
 		}
 	}
@@ -411,7 +415,7 @@ func instantiateForallsOnce(text string, seen map[string]bool) []string {
 			defs[m[1]] = m[2]
 		}
 	}
-	norm := func(t string) string { return eraseVersions(expandDefs(t, defs)) }
+	norm := func(t string) string { return eraseVersions(simplifyAccessors(expandDefs(t, defs))) }
 	type sel struct{ arr, idx string }
 	var sels []sel
 	selSeen := map[string]bool{}
@@ -547,6 +551,36 @@ func instantiateForallsOnce(text string, seen map[string]bool) []string {
 		}
 	}
 	return out
+}
+
+// simplifyAccessors rewrites (s-base (mk-str a b c)) to a, (s-off ...) to b, (s-len ...) to c (and the slice
+// accessors alike), bottom-up, so that windows cut from one text are recognised as reading the same array.
+func simplifyAccessors(t string) string {
+	if len(t) == 0 || t[0] != '(' || !strings.Contains(t, "(mk-") {
+		return t
+	}
+	parts := sexprParts(t)
+	if len(parts) == 0 {
+		return t
+	}
+	for i := 1; i < len(parts); i++ {
+		parts[i] = simplifyAccessors(parts[i])
+	}
+	if len(parts) == 2 {
+		sel := map[string]int{"s-base": 1, "s-off": 2, "s-len": 3}
+		if k, ok := sel[parts[0]]; ok && strings.HasPrefix(parts[1], "(mk-str ") {
+			if in := sexprParts(parts[1]); len(in) == 4 {
+				return in[k]
+			}
+		}
+		selc := map[string]int{"c-ref": 1, "c-off": 2, "c-len": 3, "c-cap": 4}
+		if k, ok := selc[parts[0]]; ok && strings.HasPrefix(parts[1], "(mk-slc ") {
+			if in := sexprParts(parts[1]); len(in) == 5 {
+				return in[k]
+			}
+		}
+	}
+	return "(" + strings.Join(parts, " ") + ")"
 }
 
 func balanced2(s string) bool {
@@ -704,7 +738,7 @@ func phiCases(goal string, body []string) []phiCase {
 
 // skolemizeGoal replaces every positively occurring (forall ((v Int)) body) of a goal by body[v := fresh constant].
 // Proving the result for arbitrary constants proves the goal.
-func skolemizeGoal(goal string) (string, []string) {
+func skolemize(goal string, pos0 bool) (string, []string) {
 	var decls []string
 	var walk func(t string, pos bool) string
 	walk = func(t string, pos bool) string {
@@ -769,7 +803,19 @@ func skolemizeGoal(goal string) (string, []string) {
 		}
 		return t
 	}
-	return walk(goal, true), decls
+	return walk(goal, pos0), decls
+}
+
+// skolemizeGoal: see skolemize; the goal is about to be negated, so its positive universals become witnesses.
+func skolemizeGoal(goal string) (string, []string) { return skolemize(goal, true) }
+
+// skolemizeHyp: a hypothesis "(forall k. P k) => Q" is equivalent to "exists k. (P k => Q)"; naming the witness
+// gives the generator-side instantiation a ground term to instantiate the other hypotheses at.
+func skolemizeHyp(h string) (string, []string) {
+	if !strings.Contains(h, "(forall ((") && !strings.Contains(h, "(exists ((") {
+		return h, nil
+	}
+	return skolemize(h, false)
 }
 
 // heapFamily names the heap component an array term reads from, e.g. "H!E!Int" for (select H!E!Int!12 r).
